@@ -72,8 +72,12 @@ impl<T> Mutex<T> {
     }
 
     /// Observation without involving the scheduler; only valid while no other thread runs.
-    pub(crate) fn verif_peek(&self) -> std::sync::MutexGuard<'_, T> {
-        self.inner.lock().unwrap_or_else(|e| e.into_inner())
+    pub(crate) fn verif_peek(&self) -> Option<std::sync::MutexGuard<'_, T>> {
+        match self.inner.try_lock() {
+            Ok(g) => Some(g),
+            Err(std::sync::TryLockError::Poisoned(e)) => Some(e.into_inner()),
+            Err(std::sync::TryLockError::WouldBlock) => None,
+        }
     }
 
     pub fn lock(&self) -> Result<MutexGuard<'_, T>, std::convert::Infallible> {
